@@ -29,7 +29,7 @@ func (w *ammWorld) snap(sym string) *poolSnap {
 }
 
 func (w *ammWorld) rZero() bool {
-	return w.app.ClpKeeper.GetPmtpRateParams(w.ctx).PmtpCurrentRunningRate.IsZero()
+	return w.storedRunningRate().Sign() == 0
 }
 
 func (w *ammWorld) backing(tag string, before, after *poolSnap) {
@@ -84,6 +84,15 @@ func init() {
 				n2 := new(big.Int).Sub(w.bal(u, "rowan"), new(big.Int).Sub(bn, nAmt))
 				e2 := new(big.Int).Sub(w.bal(u, sym), new(big.Int).Sub(be, eAmt))
 				out.Emit(fmt.Sprintf("chk c04.addremove tag=add.remove.tiny 0 %s %s %s %s %s %s %s %s", w.configuredFee("rowan"), w.configuredFee(sym), s0.R, s0.A, nAmt, eAmt, n2, e2), "true", "chk.addremove", false)
+			}
+			// the holder of the few units removes by basis points: the claim is a fraction of a unit (and of several)
+			for _, wb := range []int64{400, 1200, 2400, 10, 5100, int64(1 + rng.Intn(9999))} {
+				s1 := w.snap(sym)
+				if s1 == nil {
+					break
+				}
+				w.opRm(w.users[0], sym, wb)
+				w.backing("remove.bp.tiny", s1, w.snap(sym))
 			}
 		}
 		for done := 0; done < n; {
@@ -176,6 +185,9 @@ func init() {
 				done++
 				if policyEnd > 0 && w.height <= policyEnd+1 && i%4 == 3 {
 					nextBlock()
+				}
+				if rng.Chance(1, 10) {
+					w.opDiscardedTx()
 				}
 				sym := ammTokens[rng.Intn(len(ammTokens))]
 				p := w.pool(sym)
@@ -285,7 +297,7 @@ func init() {
 					w.backing("remove", s1, w.snap(sym))
 					n2 := new(big.Int).Sub(w.bal(u, "rowan"), new(big.Int).Sub(bn, nAmt))
 					e2 := new(big.Int).Sub(w.bal(u, sym), new(big.Int).Sub(be, eAmt))
-					rr := w.app.ClpKeeper.GetPmtpRateParams(w.ctx).PmtpCurrentRunningRate.BigInt()
+					rr := w.storedRunningRate()
 					fS := w.configuredFee("rowan")
 					fB := w.configuredFee(sym)
 					// the round-trip clauses of C04 quantify over ratio-shifting rates in [0,1]: outside that domain the
